@@ -1,5 +1,6 @@
 import Model.Migration
 import Proofs.Migration
+import Proofs.MigrationRestore
 /-!
 # C18 — migrations run in order, gated by the recorded version, and resume after failure
 -/
@@ -110,6 +111,51 @@ theorem idempotent (orders : List Nat) (hpos : ∀ m ∈ orders, 0 < m) (st : MS
 /-- an unfaulted request never raises -/
 theorem completes (orders : List Nat) (st : MState) (r : Req) : (request orders st r .none).2 = false :=
   loop_none_not_raised r.dir (select orders r) 0 st
+
+/-- **a full up followed by a full down restores the initial schema state**: starting with no
+schema effect in place (whatever version is recorded), after a whole-set `up` and a whole-set
+`down` no schema effect is in place and every migration of the set is again above the recorded
+version — for every declaration order of the set -/
+theorem up_down_restores (orders : List Nat) (hpos : ∀ m ∈ orders, 0 < m) (st : MState) (hs : st.schema = []) :
+    (request orders (request orders st ⟨.up, none⟩ .none).1 ⟨.down, none⟩ .none).1.schema = [] ∧
+    ∀ m ∈ orders, (request orders (request orders st ⟨.up, none⟩ .none).1 ⟨.down, none⟩ .none).1.last < m := by
+  have hposU := select_pos orders ⟨.up, none⟩ hpos
+  have hposD := select_pos orders ⟨.down, none⟩ hpos
+  have hup := loop_none_dead .up (select orders ⟨.up, none⟩) hposU 0 st
+  have hdown := loop_none_dead .down (select orders ⟨.down, none⟩) hposD 0 (request orders st ⟨.up, none⟩ .none).1
+  have hselU : select orders ⟨.up, none⟩ = sortAsc orders := rfl
+  have hselD : select orders ⟨.down, none⟩ = (sortAsc orders).reverse := rfl
+  constructor
+  · apply List.eq_nil_iff_forall_not_mem.2
+    intro x hx
+    have hdesc : (select orders ⟨.down, none⟩).Pairwise (· ≥ ·) := by
+      rw [hselD, List.pairwise_reverse]
+      exact (sortAsc_sorted orders).imp (fun h => h)
+    have hinv : ∀ m ∈ select orders ⟨.down, none⟩,
+        m ≤ (request orders st ⟨.up, none⟩ .none).1.last ∨ m ∉ (request orders st ⟨.up, none⟩ .none).1.schema := by
+      intro m hm
+      left
+      have hm' : m ∈ select orders ⟨.up, none⟩ := by
+        rw [hselU]; rw [hselD, List.mem_reverse] at hm; exact hm
+      exact hup.2 m hm'
+    have h1 := loop_down_schema _ hdesc 0 (request orders st ⟨.up, none⟩ .none).1 hinv x hx
+    have h2 := loop_up_schema_sub (select orders ⟨.up, none⟩) 0 st x h1.1
+    rw [hs] at h2
+    rcases h2 with h2 | h2
+    · simp at h2
+    · apply h1.2
+      rw [hselD, List.mem_reverse]; rw [hselU] at h2; exact h2
+  · intro m hm
+    have hm' : m ∈ select orders ⟨.down, none⟩ := by
+      rw [hselD, List.mem_reverse]; exact mem_sortAsc.2 hm
+    exact hdown.2 m hm'
+
+/-- … and when the set is numbered from 1, the recorded version is back at 0 -/
+theorem up_down_restores_version (orders : List Nat) (hpos : ∀ m ∈ orders, 0 < m) (h1 : 1 ∈ orders)
+    (st : MState) (hs : st.schema = []) :
+    (request orders (request orders st ⟨.up, none⟩ .none).1 ⟨.down, none⟩ .none).1.last = 0 := by
+  have := (up_down_restores orders hpos st hs).2 1 h1
+  omega
 
 /-- the shipped migration sets declare pairwise distinct, positive order numbers -/
 theorem shipped_orders_ok :
